@@ -27,9 +27,58 @@
 (* octets without error are legal anywhere.  Chunk independence is a relation between   *)
 (* runs of the same document: whatever two legal deliveries are chosen, the observation *)
 (* sequences are equal; it is checked against one fixed run (ref) of the document.      *)
+(*                                                                                      *)
+(* VERY LONG LINES.  The property's quantifier names them explicitly; a line of several *)
+(* mebioctets cannot be written down octet by octet.  A document (and every token's     *)
+(* data) therefore has two FORMS: "octets" - a sequence of octets, as above - and        *)
+(* "runs" - a sequence of runs <<octet, count>> standing for count copies of the octet.  *)
+(* The run-length form is a lossless encoding, not an abstraction: every clause below is *)
+(* stated for both forms (length = sum of the counts; concatenation = merge of adjacent  *)
+(* runs of the same octet; "is the next piece of the input" = equality of the normal     *)
+(* forms of the token's runs and of the runs cut out of the input at the monitor's       *)
+(* position).  Counts are plain integers, so a line of 2^24 + 1 octets costs the monitor *)
+(* as much as a line of three.                                                           *)
 EXTENDS Integers, Sequences, FiniteSets, TLC
 
 NL == 10
+
+(* ---- the run-length form ---- *)
+Octet(r) == r[1]
+Count(r) == r[2]
+WellFormedRuns(r) == \A i \in 1..Len(r) : Len(r[i]) = 2 /\ Octet(r[i]) \in 0..255 /\ Count(r[i]) \in Nat
+RECURSIVE RLen(_)
+RLen(r) == IF r = <<>> THEN 0 ELSE Count(Head(r)) + RLen(Tail(r))
+(* normal form: no empty run, adjacent runs carry different octets.  Two run sequences   *)
+(* stand for the same octet string iff their normal forms are equal.                    *)
+RECURSIVE RNorm(_)
+RNorm(r) ==
+  IF r = <<>> THEN <<>>
+  ELSE IF Count(Head(r)) = 0 THEN RNorm(Tail(r))
+  ELSE LET t == RNorm(Tail(r)) IN
+       IF t # <<>> /\ Octet(t[1]) = Octet(Head(r))
+       THEN <<(<<Octet(Head(r)), Count(Head(r)) + Count(t[1])>>)>> \o Tail(t)
+       ELSE <<Head(r)>> \o t
+(* concatenation of octet strings = merge of adjacent equal runs *)
+RCat(a, b) == RNorm(a \o b)
+(* the octets from + 1 .. from + len of r (fewer when r is shorter) *)
+RECURSIVE RSub(_, _, _)
+RSub(r, from, len) ==
+  IF len <= 0 \/ r = <<>> THEN <<>>
+  ELSE LET c == Count(Head(r)) IN
+       IF from >= c THEN RSub(Tail(r), from - c, len)
+       ELSE LET take == IF c - from < len THEN c - from ELSE len IN
+            <<(<<Octet(Head(r)), take>>)>> \o RSub(Tail(r), 0, len - take)
+RLastOctet(r) == LET n == RNorm(r) IN IF n = <<>> THEN -1 ELSE Octet(n[Len(n)])
+(* the octet string a run sequence stands for (design check only: short documents) *)
+RECURSIVE RExpand(_)
+RExpand(r) == IF r = <<>> THEN <<>> ELSE [i \in 1..Count(Head(r)) |-> Octet(Head(r))] \o RExpand(Tail(r))
+
+(* length / equality / concatenation of documents and token data in either form *)
+DLen(rle, d) == IF rle THEN RLen(d) ELSE Len(d)
+DSame(rle, a, b) == IF rle THEN RNorm(a) = RNorm(b) ELSE a = b
+DCat(rle, a, b) == IF rle THEN RCat(a, b) ELSE a \o b
+DPrefix(rle, d, n) == IF rle THEN RNorm(RSub(d, 0, n)) ELSE SubSeq(d, 1, n)
+DWhole(rle, d) == IF rle THEN RNorm(d) ELSE d
 SpanKinds == {"SpanEmph", "SpanStrong", "SpanStrike", "SpanPre"}
 Kinds == SpanKinds \cup {"BlockPre", "BlockQuote"}
 StartBit(k) == k \o "Start"
@@ -40,25 +89,33 @@ ToSet(s) == {s[i] : i \in 1..Len(s)}
 
 (* monitor state.  api = "decoder" (Next/Token/Style/Quote) or "scan" (the bare split   *)
 (* function under a bufio.Scanner: data only, so only losslessness and termination)    *)
-Start(input, api, ref) ==
-  [input |-> input, api |-> api, ref |-> ref, n |-> 0, pos |-> 0, stack |-> <<>>,
+(* rle: the document, the data and info of every observation (and of ref) are in the     *)
+(* run-length form                                                                      *)
+StartF(rle, input, api, ref) ==
+  [input |-> input, rle |-> rle, api |-> api, ref |-> ref, n |-> 0, pos |-> 0, stack |-> <<>>,
    done |-> FALSE, why |-> ""]
+Start(input, api, ref) == StartF(FALSE, input, api, ref)
 
 Reject(st, why) == [st EXCEPT !.why = why]
 
 (* the io.Reader contract as far as the property's quantifier needs it *)
-LegalDelivery(input, rd, eof) ==
+(* (size = length of the document in octets) *)
+LegalDeliveryN(size, rd, eof) ==
   LET n == Len(rd)
       before(i) == IF i = 1 THEN 0 ELSE rd[i - 1]
   IN /\ eof \in {"separate", "with-data", "none"}
-     /\ \A i \in 1..n : before(i) <= rd[i] /\ rd[i] <= Len(input)       \* pieces of the input, in order
-     /\ (eof = "separate" => n >= 1 /\ rd[n] = Len(input) /\ before(n) = rd[n])
-     /\ (eof = "with-data" => n >= 1 /\ rd[n] = Len(input) /\ before(n) < rd[n])
+     /\ \A i \in 1..n : before(i) <= rd[i] /\ rd[i] <= size               \* pieces of the input, in order
+     /\ (eof = "separate" => n >= 1 /\ rd[n] = size /\ before(n) = rd[n])
+     /\ (eof = "with-data" => n >= 1 /\ rd[n] = size /\ before(n) < rd[n])
+LegalDelivery(input, rd, eof) == LegalDeliveryN(Len(input), rd, eof)
 (* a run under a recorded delivery; a delivery that is not legal is the harness's fault, *)
 (* not the decoder's: it is reported under its own name and never as a C17 clause        *)
-StartD(input, api, ref, rd, eof) ==
-  IF LegalDelivery(input, rd, eof) THEN Start(input, api, ref)
-  ELSE Reject(Start(input, api, ref), "HARNESS_Delivery: the recorded reads are not a legal delivery of the input")
+StartDF(rle, input, api, ref, rd, eof) ==
+  IF rle /\ ~WellFormedRuns(input)
+  THEN Reject(StartF(rle, <<>>, api, ref), "HARNESS_Runs: the recorded document is not a sequence of <<octet, count>> runs")
+  ELSE IF LegalDeliveryN(DLen(rle, input), rd, eof) THEN StartF(rle, input, api, ref)
+  ELSE Reject(StartF(rle, input, api, ref), "HARNESS_Delivery: the recorded reads are not a legal delivery of the input")
+StartD(input, api, ref, rd, eof) == StartDF(FALSE, input, api, ref, rd, eof)
 
 (* ---- the clauses of the property, one definition each ---- *)
 
@@ -73,10 +130,15 @@ SpanEnds(m) == {k \in SpanKinds : EndBit(k) \in m}
 (* "the concatenation of its tokens' data equals the input": every token is the next    *)
 (* piece of the input *)
 NextPiece(st, data) ==
-  /\ st.pos + Len(data) <= Len(st.input)
-  /\ \A i \in 1..Len(data) : st.input[st.pos + i] = data[i]
+  IF st.rle
+  THEN /\ WellFormedRuns(data)
+       /\ st.pos + RLen(data) <= RLen(st.input)
+       /\ RNorm(RSub(st.input, st.pos, RLen(data))) = RNorm(data)       \* prefix test over runs
+  ELSE /\ st.pos + Len(data) <= Len(st.input)
+       /\ \A i \in 1..Len(data) : st.input[st.pos + i] = data[i]
 
 EndsLine(data) == Len(data) > 0 /\ data[Len(data)] = NL
+EndsLineF(rle, data) == IF rle THEN RLastOctet(data) = NL ELSE EndsLine(data)
 
 (* chunk independence: the k-th observation of this run is the k-th observation of the  *)
 (* reference run (same input read in one piece); ref = <<>> for the reference run itself *)
@@ -85,7 +147,7 @@ SameAsRef(st, e) ==
   \/ /\ st.n + 1 <= Len(st.ref)
      /\ LET r == st.ref[st.n + 1] IN
           IF e.ev = "tok"
-          THEN r.ev = "tok" /\ r.data = e.data /\ ToSet(r.m) = ToSet(e.m) /\ r.q = e.q /\ r.info = e.info
+          THEN r.ev = "tok" /\ DSame(st.rle, r.data, e.data) /\ ToSet(r.m) = ToSet(e.m) /\ r.q = e.q /\ DSame(st.rle, r.info, e.info)
           ELSE r.ev = "end"
 
 Tok(st, e) ==
@@ -98,7 +160,7 @@ Tok(st, e) ==
   IN
   IF ~NextPiece(st, e.data) THEN Reject(st, "C17_Lossless: token data is not the next piece of the input")
   ELSE IF ~SameAsRef(st, e) THEN Reject(st, "C17_ChunkIndependent: token differs from the whole-input read")
-  ELSE IF st.api = "scan" THEN [st EXCEPT !.n = @ + 1, !.pos = @ + Len(e.data)]
+  ELSE IF st.api = "scan" THEN [st EXCEPT !.n = @ + 1, !.pos = @ + DLen(st.rle, e.data)]
   ELSE IF ~(m \subseteq AllBits) THEN Reject(st, "C17_Bits: unknown style bit")
   ELSE IF ~DirectiveImpliesStyle(m) THEN Reject(st, "C17_DirectiveImpliesStyle: directive bit without its style bit")
   ELSE IF Cardinality(S) + Cardinality(E) > 1 THEN Reject(st, "C17_OneDirective: more than one span directive on one token")
@@ -106,14 +168,14 @@ Tok(st, e) ==
   ELSE IF S # {} /\ "SpanPre" \in ToSet(st.stack) THEN Reject(st, "C17_NoStartInPre: span start inside a preformatted span")
   ELSE IF "BlockPreStart" \in m /\ "SpanPre" \in ToSet(st.stack) THEN Reject(st, "C17_NoStartInPre: block start inside a preformatted span")
   ELSE IF (S # {} \/ E # {}) /\ "BlockPre" \in m THEN Reject(st, "C17_NoStartInPre: span directive inside a preformatted block")
-  ELSE IF EndsLine(e.data) /\ stack2 # <<>> THEN Reject(st, "C17_ClosedBeforeLineEnd: line ends with a span open")
-  ELSE [st EXCEPT !.n = @ + 1, !.pos = @ + Len(e.data), !.stack = stack2]
+  ELSE IF EndsLineF(st.rle, e.data) /\ stack2 # <<>> THEN Reject(st, "C17_ClosedBeforeLineEnd: line ends with a span open")
+  ELSE [st EXCEPT !.n = @ + 1, !.pos = @ + DLen(st.rle, e.data), !.stack = stack2]
 
 End(st, e) ==
   IF e.panic THEN Reject(st, "C17_NoPanic: the decoder panicked")
   ELSE IF e.runaway THEN Reject(st, "C17_Terminates: Next kept returning true")
   ELSE IF ~SameAsRef(st, e) THEN Reject(st, "C17_ChunkIndependent: fewer tokens than the whole-input read")
-  ELSE IF st.pos # Len(st.input) THEN Reject(st, "C17_Lossless: decoding ended before the end of the input")
+  ELSE IF st.pos # DLen(st.rle, st.input) THEN Reject(st, "C17_Lossless: decoding ended before the end of the input")
   ELSE IF st.stack # <<>> THEN Reject(st, "C17_ClosedBeforeLineEnd: input ends with a span open")
   ELSE [st EXCEPT !.n = @ + 1, !.done = TRUE]
 
@@ -127,22 +189,32 @@ Run(st, evs) == IF evs = <<>> THEN st ELSE Run(Step(st, Head(evs)), Tail(evs))
 Accepts(input, api, ref, evs) == LET f == Run(Start(input, api, ref), evs) IN f.why = "" /\ f.done
 WhyNot(input, api, ref, evs) == Run(Start(input, api, ref), evs).why
 WhyNotD(input, api, ref, rd, eof, evs) == Run(StartD(input, api, ref, rd, eof), evs).why
+(* the same for a document and observations in the run-length form *)
+AcceptsR(input, api, ref, evs) == LET f == Run(StartF(TRUE, input, api, ref), evs) IN f.why = "" /\ f.done
+WhyNotR(input, api, ref, evs) == Run(StartF(TRUE, input, api, ref), evs).why
+WhyNotDF(rle, input, api, ref, rd, eof, evs) == Run(StartDF(rle, input, api, ref, rd, eof), evs).why
 
 (* ---- the monitor as a state machine driven by an arbitrary token-stream generator ---- *)
 CONSTANTS Inputs,     \* set of inputs (sequences of octets)
           Masks,      \* set of style masks (sequences of bit names) the generator may attach
           MaxTok,     \* longest token the generator produces
-          MaxEvents   \* longest stream the generator produces
+          MaxEvents,  \* longest stream the generator produces
+          RInputs,    \* set of inputs in the run-length form (sequences of <<octet, count>>)
+          RMasks,     \* style masks the generator attaches to tokens of those
+          RMaxEvents  \* longest stream the generator produces over those
 VARIABLES st,         \* monitor state
-          out,        \* history: concatenation of the data of the accepted tokens
+          out,        \* history: concatenation of the data of the accepted tokens (in the form of the input)
           lastNL      \* history: the last accepted token ended a line
 vars == <<st, out, lastNL>>
 
-Init == \E i \in Inputs : st = Start(i, "decoder", <<>>) /\ out = <<>> /\ lastNL = FALSE
+Init == /\ \/ \E i \in Inputs : st = Start(i, "decoder", <<>>)
+           \/ \E i \in RInputs : st = StartF(TRUE, i, "decoder", <<>>)
+        /\ out = <<>> /\ lastNL = FALSE
 
 (* the generator is free: any piece length (also pieces that are NOT the next piece of   *)
 (* the input: one octet altered), any mask, any depth; the monitor judges               *)
 GenTok ==
+  /\ ~st.rle
   /\ st.why = "" /\ ~st.done /\ st.n < MaxEvents
   /\ \E len \in 0..MaxTok, m \in Masks, wrong \in BOOLEAN :
        /\ st.pos + len <= Len(st.input)
@@ -153,18 +225,59 @@ GenTok ==
           IN /\ st' = Step(st, e)
              /\ out' = IF st'.why = "" THEN out \o data ELSE out
              /\ lastNL' = IF st'.why = "" THEN EndsLine(data) ELSE lastNL
+
+(* the same generator over documents in the run-length form.  Runs may be of any length  *)
+(* (2^20 + 1 ...), so the generator cannot try every token length: a token ends at a run *)
+(* boundary of the document, one octet before or after one, or within MaxTok octets of   *)
+(* the monitor's position.  The piece is handed over in normal form, with its first run  *)
+(* split in two (not normal: legal), with its first octet altered, or with one octet     *)
+(* more / one octet fewer in its first run than the document has there (wrong unless the *)
+(* result happens to be the next piece all the same: the monitor judges).               *)
+RECURSIVE RBounds(_, _)
+RBounds(r, at) == IF r = <<>> THEN {at} ELSE {at} \cup RBounds(Tail(r), at + Count(Head(r)))
+REnds(input, pos) ==
+  {x \in {b + d : b \in RBounds(input, 0), d \in {-1, 0, 1}} \cup {pos + d : d \in 0..MaxTok} :
+      pos <= x /\ x <= RLen(input)}
+RShapes == {"normal", "split", "octet", "longer", "shorter"}
+RShape(piece, shape) ==
+  IF piece = <<>> THEN (IF shape = "longer" THEN <<(<<NL, 1>>)>> ELSE <<>>)
+  ELSE LET h == Head(piece) IN
+       CASE shape = "normal" -> piece
+         [] shape = "split" -> IF Count(h) >= 2 THEN <<(<<Octet(h), 1>>), (<<Octet(h), Count(h) - 1>>)>> \o Tail(piece)
+                               ELSE <<(<<Octet(h), 0>>)>> \o piece
+         [] shape = "octet" -> <<(<<(Octet(h) + 1) % 256, Count(h)>>)>> \o Tail(piece)
+         [] shape = "longer" -> <<(<<Octet(h), Count(h) + 1>>)>> \o Tail(piece)
+         [] shape = "shorter" -> <<(<<Octet(h), Count(h) - 1>>)>> \o Tail(piece)
+GenTokR ==
+  /\ st.rle
+  /\ st.why = "" /\ ~st.done /\ st.n < RMaxEvents
+  /\ \E x \in REnds(st.input, st.pos), m \in RMasks, shape \in RShapes :
+       LET data == RShape(RSub(st.input, st.pos, x - st.pos), shape)
+           e == [ev |-> "tok", data |-> data, m |-> m, q |-> 0, info |-> <<>>]
+       IN /\ st' = Step(st, e)
+          /\ out' = IF st'.why = "" THEN RCat(out, data) ELSE out
+          /\ lastNL' = IF st'.why = "" THEN EndsLineF(TRUE, data) ELSE lastNL
 GenEnd ==
   /\ st.why = "" /\ ~st.done
   /\ \E p \in BOOLEAN :
        st' = Step(st, [ev |-> "end", panic |-> p, runaway |-> FALSE, err |-> "EOF"])
   /\ UNCHANGED <<out, lastNL>>
-Next == GenTok \/ GenEnd
+Next == GenTok \/ GenTokR \/ GenEnd
 Spec == Init /\ [][Next]_vars
 
 NotRejected == st.why = ""
 (* whatever the generator does, a stream the monitor has not rejected satisfies: *)
-C17_Lossless == NotRejected => /\ out = SubSeq(st.input, 1, st.pos)
-                            /\ (st.done => out = st.input)
+C17_Lossless == NotRejected => /\ out = DPrefix(st.rle, st.input, st.pos)
+                            /\ (st.done => out = DWhole(st.rle, st.input))
+(* the run-length form is faithful: what the monitor accepted over runs is, octet by     *)
+(* octet, a prefix of the document (checked by expansion wherever the document is short  *)
+(* enough to be written out)                                                             *)
+MaxExpand == 64
+C17_RunsFaithful ==
+  (NotRejected /\ st.rle /\ RLen(st.input) <= MaxExpand) =>
+     /\ RExpand(out) = SubSeq(RExpand(st.input), 1, st.pos)
+     /\ (st.done => RExpand(out) = RExpand(st.input))
+     /\ (lastNL => (st.pos > 0 /\ RExpand(st.input)[st.pos] = NL))
 C17_WellBracketed ==
   NotRejected => /\ ToSet(st.stack) \subseteq SpanKinds
               /\ \A i \in 1..(Len(st.stack) - 1) : st.stack[i] # "SpanPre"      \* nothing opened inside a pre span
